@@ -286,10 +286,12 @@ func (s *Sixel) Resize(w int, h int) {
 	version := s.version
 	atomicStore(&s.encoding, true)
 	s.mu.Unlock()
+	// The size of a cell is read here, in the caller's goroutine: Render
+	// takes a new window size over while the encoder runs
+	cellPixW := s.vx.winSize.XPixel / s.vx.winSize.Cols
+	cellPixH := s.vx.winSize.YPixel / s.vx.winSize.Rows
 	go func() {
 		// Resize the image
-		cellPixW := s.vx.winSize.XPixel / s.vx.winSize.Cols
-		cellPixH := s.vx.winSize.YPixel / s.vx.winSize.Rows
 		img := resizeImage(s.img, w, h, cellPixW, cellPixH)
 		max := img.Bounds().Max
 		cols := max.X / cellPixW
